@@ -27,6 +27,11 @@ def _pattern(rng, placed):
     p = rng.choice(paths) if paths and rng.random() < 0.8 else G.new_path(rng)
     parts = p.split("/")
     k = rng.random()
+    if k < 0.08:                                   # /name or /a/b: anchored at the root explicitly
+        n = rng.randint(1, len(parts))
+        if rng.random() < 0.5 and len(parts) > 1:
+            return "/" + rng.choice(parts[1:])     # a name that also exists deeper: must only match at the root
+        return "/" + "/".join(parts[:n])
     if k < 0.25:                                   # bare name (file or directory at any depth)
         return rng.choice(parts)
     if k < 0.45:                                   # dir/
